@@ -426,6 +426,7 @@ var tours = []struct {
 		}
 		return cc
 	}},
+	{"upgrades-after-sync-rotation", sim.TourUpgradesAfterSyncRotation},
 	{"ejection-wave-capped-activation-churn", func(rt *rapid.T) *sim.ChainCase {
 		// partial participation with large base rewards: the non-attesters of an epoch fall below the
 		// ejection balance together, several are ejected at one boundary while get_validator_churn_limit
